@@ -254,6 +254,16 @@ def D22():
     return holds, f"Tagged over a PEP 604 union (V1 | V2) / flatten_union_args on `int | str`: {r!r}"
 
 
+def D23():
+    import pane
+    class Color(str, enum.Enum):
+        RED = 'red'
+    a = _outcome(lambda: pane.convert(Color.RED, Color))
+    b = _outcome(lambda: pane.into_data(Color.RED, t.Union[int, Color]))
+    holds = a == ('ok', Color.RED) and b == ('ok', 'red') and type(b[1]) is str
+    return holds, f"class Color(str, Enum): convert(Color.RED, Color) -> {a!r}; into_data(Color.RED, Union[int, Color]) -> {b!r}"
+
+
 # ---- known findings (status=known): each returns holds=False while the finding reproduces -------------
 def N1():
     import pane
